@@ -188,7 +188,9 @@ def run(ck):
             if dev > 1e-6:
                 ck.violation(f'stored root does not square back to the stored feature matrix (max dev {dev:.3g}) after {iters} rounds on a fast-converging fit on {desc}',
                              dict(desc, dev=dev), key='root')
-            if np.max(np.abs(Mm - Mm.T)) > 1e-12 or np.linalg.eigvalsh((Mm + Mm.T) / 2).min() < -1e-9 or abs(Mm.max() - 1.0) > 1e-6:
+            # rounding level of the dtype the fit ran in: a fast-converging fit makes the matrix (numerically) rank deficient, its smallest eigenvalue is 0 +- one ulp of the largest
+            psd_tol = 1e-9 if yscale != 1e-5 else 2e-6
+            if np.max(np.abs(Mm - Mm.T)) > 1e-12 or np.linalg.eigvalsh((Mm + Mm.T) / 2).min() < -psd_tol or abs(Mm.max() - 1.0) > 1e-6:
                 ck.violation(f'stored feature matrix is not symmetric PSD with largest entry one on {desc}', dict(desc), key=json.dumps(dict(site='agop', what='converging-structure')))
     res = ck.run_bool_cases('agop', HEADER, cases, shard=12)
     bad = [meta[k] for k, v in res.items() if v is not True]
